@@ -2,6 +2,7 @@ import Victron.Model.Proto
 import Victron.Model.FileLog
 import Victron.Proofs.Logging
 import Victron.Proofs.Replay
+import Victron.Props.C06
 /-
   C18 — Logging is transparent and the I/O log replays.
   Model: `Vd` with `ioLog` / `dbg` configuration, the tx/rx capture buffers and emitted lines exactly as
@@ -198,5 +199,76 @@ theorem file_append_step (prev : Bytes) (lines : List Bytes) (l : Bytes) :
 
 /-- non-vacuity: a logged exchange -/
 example : ((Vd.getUint { port := { replies := [[frameOf (getResponseBody 1 0 [5])]] }, ioLog := true } [true] 1).1.lines.length) = 1 := by decide
+
+/-! ### Histories: one line per typed call, whatever came before -/
+
+/-- the typed calls are the ones that end with `ioLoggerLineEnd` -/
+def isTyped : C06.Call → Bool
+  | .ping _ | .deviceId _ | .getUint _ _ | .getInt _ _ | .getString _ _ => true
+  | .command _ _ _ | .getRaw _ _ => false
+
+theorem lineEnd_lines (σ : Vd) : σ.lineEnd.ioLog = σ.ioLog ∧
+    σ.lineEnd.lines.length = σ.lines.length + (if σ.ioLog then 1 else 0) := by
+  unfold Vd.lineEnd; cases h : σ.ioLog <;> simp [h]
+
+/-- one call: the logger switch is untouched and the number of lines grows by one exactly for a typed call with the
+    I/O logger on -/
+theorem doCall_lines (σ : Vd) (c : C06.Call) :
+    (C06.doCall σ c).1.ioLog = σ.ioLog ∧
+    (C06.doCall σ c).1.lines.length = σ.lines.length + (if σ.ioLog && isTyped c then 1 else 0) := by
+  cases c with
+  | ping i =>
+    obtain ⟨fs, _, _, _, hi, hl⟩ := σ.sendReceive_tx i 1 []
+    have := lineEnd_lines (σ.sendReceive i 1 []).1
+    simp only [C06.doCall, Vd.ping, isTyped, Bool.and_true]
+    rw [this.1, this.2, hi, hl]; exact ⟨rfl, rfl⟩
+  | deviceId i =>
+    obtain ⟨fs, _, _, _, hi, hl⟩ := σ.veCommand_tx i 4 0
+    have := lineEnd_lines (σ.veCommand i 4 0).1
+    simp only [C06.doCall, Vd.getDeviceId, isTyped, Bool.and_true]
+    rw [this.1, this.2, hi, hl]; exact ⟨rfl, rfl⟩
+  | command i c a =>
+    obtain ⟨fs, _, _, _, hi, hl⟩ := σ.veCommand_tx i c a
+    simp only [C06.doCall, isTyped, Bool.and_false]
+    rw [hi, hl]; exact ⟨rfl, by simp⟩
+  | getRaw is a =>
+    obtain ⟨k, _, _, _, hi, hl⟩ := Vd.veCommandGetL_tx (idles8 is) σ a
+    simp only [C06.doCall, Vd.veCommandGet, isTyped, Bool.and_false]
+    rw [hi, hl]; exact ⟨rfl, by simp⟩
+  | getUint is a =>
+    obtain ⟨k, _, _, _, hi, hl⟩ := Vd.veCommandGetL_tx (idles8 is) σ a
+    have := lineEnd_lines (Vd.veCommandGetL (idles8 is) σ a).1
+    simp only [C06.doCall, Vd.getUint, Vd.veCommandGet, isTyped, Bool.and_true]
+    rw [this.1, this.2, hi, hl]; exact ⟨rfl, rfl⟩
+  | getInt is a =>
+    obtain ⟨k, _, _, _, hi, hl⟩ := Vd.veCommandGetL_tx (idles8 is) σ a
+    have := lineEnd_lines (Vd.veCommandGetL (idles8 is) σ a).1
+    simp only [C06.doCall, Vd.getInt, Vd.veCommandGet, isTyped, Bool.and_true]
+    rw [this.1, this.2, hi, hl]; exact ⟨rfl, rfl⟩
+  | getString is a =>
+    obtain ⟨k, _, _, _, hi, hl⟩ := Vd.veCommandGetL_tx (idles8 is) σ a
+    have := lineEnd_lines (Vd.veCommandGetL (idles8 is) σ a).1
+    simp only [C06.doCall, Vd.getString, Vd.veCommandGet, isTyped, Bool.and_true]
+    rw [this.1, this.2, hi, hl]; exact ⟨rfl, rfl⟩
+
+/-- **Exactly one line per typed call over any history on one driver object** (I/O logger on), none without the logger:
+    failed, retried, refused and noisy calls included; raw `VeCommand`/`VeCommandGet` calls emit none. -/
+theorem history_lines (cs : List C06.Call) (σ : Vd) :
+    (C06.history σ cs).1.lines.length = σ.lines.length + (if σ.ioLog then (cs.filter isTyped).length else 0) := by
+  have gen : ∀ (cs : List C06.Call) (σ : Vd) (acc : List Bool),
+      (cs.foldl C06.histStep (σ, acc)).1.ioLog = σ.ioLog ∧
+      (cs.foldl C06.histStep (σ, acc)).1.lines.length = σ.lines.length + (if σ.ioLog then (cs.filter isTyped).length else 0) := by
+    intro cs
+    induction cs with
+    | nil => intro σ acc; simp
+    | cons c cs ih =>
+      intro σ acc
+      obtain ⟨h1, h2⟩ := doCall_lines σ c
+      obtain ⟨g1, g2⟩ := ih (C06.doCall σ c).1 (acc ++ [(C06.doCall σ c).2])
+      simp only [List.foldl_cons, C06.histStep]
+      refine ⟨g1.trans h1, ?_⟩
+      rw [g2, h1, h2]
+      cases hio : σ.ioLog <;> cases ht : isTyped c <;> simp [List.filter_cons, ht] <;> omega
+  exact (gen cs σ []).2
 
 end Victron.C18
